@@ -381,7 +381,7 @@ def main():
                     tag_hist[t] = tag_hist.get(t, 0) + 1
             if len(samples) < 6:
                 step = max(1, len(cases) // 3)
-                samples += [{"engine": name, "input": c["i"], "impl_output": c["o"]} for c in cases[::step][:3]]
+                samples += [{"engine": name, "input": abbreviate(c["i"]), "impl_output": abbreviate(c["o"])} for c in cases[::step][:3]]
             meta = {"engine": name, "profile": profile, "seed": eseed, "n": n, "tier": rtier}
             for i in bo:
                 oracle_fail.append(dict(meta, index=i, case=cases[i]))
@@ -480,8 +480,7 @@ def main():
         "wall_s": round(wall, 2),
         "violations": violations,
     }
-    with open(os.path.join(ROOT, "evidence", f"{pid}.json"), "w") as f:
-        json.dump(ev, f, indent=1)
+    write_evidence(pid, ev)
     for line in lines:
         print(line)
     log(f"{pid} {tier}: cases={total_cases} distinct_nontrivial={len(distinct_nt)} corr_fail={len(corr_fail)} oracle_fail={len(oracle_fail)} proof_problems={len(proof_problems)} wall={wall:.1f}s rc={rc}")
@@ -490,6 +489,52 @@ def main():
     for ce in coq_errors[:3]:
         log("  coq error:", ce[:400])
     sys.exit(rc)
+
+
+def abbreviate(o, max_str=256, max_list=64):
+    """A copy of a case for the evidence file: a string longer than max_str (a block of up to 16 MiB in the over-cap
+    cases, hex-encoded) is replaced by its head, its length and its sha256; a list longer than max_list keeps its first
+    elements and says how many were left out.  Only the evidence sample is shortened: the case evaluated in Coq and on
+    the implementation, and a replay file, always hold the full input."""
+    if isinstance(o, str):
+        if len(o) <= max_str:
+            return o
+        return "%s...[%d chars in all, sha256 %s]" % (o[:64], len(o), hashlib.sha256(o.encode()).hexdigest())
+    if isinstance(o, list):
+        out = [abbreviate(x, max_str, max_list) for x in o[:max_list]]
+        if len(o) > max_list:
+            out.append("...[%d more elements]" % (len(o) - max_list))
+        return out
+    if isinstance(o, dict):
+        return {k: abbreviate(v, max_str, max_list) for k, v in o.items()}
+    return o
+
+
+EVIDENCE_MAX_BYTES = 512_000
+
+
+def write_evidence(pid, ev):
+    """Write evidence/<pid>.json atomically and keep it small enough to be read whole: samples are shortened further,
+    then dropped from the end, until the file is under EVIDENCE_MAX_BYTES (at least one sample always stays)."""
+    cov = ev["coverage"]
+    for max_str, max_list in ((256, 64), (128, 24), (64, 8)):
+        text = json.dumps(ev, indent=1)
+        if len(text.encode()) <= EVIDENCE_MAX_BYTES:
+            break
+        cov["samples"] = [abbreviate(x, max_str, max_list) for x in cov["samples"]]
+    text = json.dumps(ev, indent=1)
+    while len(text.encode()) > EVIDENCE_MAX_BYTES and len(cov["samples"]) > 1:
+        cov["samples"] = cov["samples"][:-1]
+        text = json.dumps(ev, indent=1)
+    json.loads(text)
+    path = os.path.join(ROOT, "evidence", f"{pid}.json")
+    tmp = path + ".tmp"
+    with open(tmp, "w") as f:
+        f.write(text)
+        f.write("\n")
+        f.flush()
+        os.fsync(f.fileno())
+    os.replace(tmp, path)
 
 
 if __name__ == "__main__":
